@@ -75,7 +75,10 @@ let run_c11 toks obs =
   with_trace toks obs (fun id k evs tr ->
     let calls = List.filter_map (fun e -> match String.split_on_char '/' e with
       | [ "callstart"; c ] when String.length c > 0 && c.[0] = 'c' -> Some (Abstract.id_num c) | _ -> None) evs in
-    if not (c11_pred calls tr) then begin
+    if List.mem "timeout/close-returns" evs then
+      Printf.sprintf "PROPFAIL %s sig=%s Close did not return: the transport is stopped but its connection was never closed and its loops are still there" id
+        (if kv "family" k = "" then "close-hangs" else "close-hangs:" ^ kv "family" k)
+    else if not (c11_pred calls tr) then begin
       let dump = List.filter (fun e -> String.length e >= 5 && String.sub e 0 5 = "dump/") evs in
       Printf.sprintf "PROPFAIL %s sig=%s at quiescence a goroutine of the library survives a stopped transport whose handlers and calls have all returned, or the pending-call table holds a call that is not outstanding; %s" id
         (if kv "family" k = "" then "leak" else "leak:" ^ kv "family" k) (String.concat " " dump)
@@ -83,3 +86,24 @@ let run_c11 toks obs =
     else match Abstract.timeouts evs with
       | [] -> Printf.sprintf "AGREE %s %s" id (nt k)
       | t :: _ -> Printf.sprintf "MISMATCH %s harness wait timed out: %s" id t)
+
+(* C10: nobody blocks for ever.  Every harness wait that timed out names an API call, a Close or a handler that is still
+   blocked; every operation outstanding when the transport stopped returns io.EOF, the write error or its context's
+   error (or the reply that had already arrived); operations started after the stop fail at once with io.EOF. *)
+let run_c10 toks obs =
+  with_trace toks obs (fun id k evs tr ->
+    let fam = if kv "family" k = "" then "" else ":" ^ kv "family" k in
+    match Abstract.timeouts evs with
+    | t :: _ -> Printf.sprintf "PROPFAIL %s sig=blocked-forever%s still blocked after the bound: %s" id fam t
+    | [] ->
+        let exp = split_on ',' (kv "expect" k) in
+        let rets = List.filter_map (function ARet (c, r) -> Some (ZZ.to_string (Values.z_of_coq c), r) | _ -> None) tr in
+        let cls = function ROk -> "ok" | RAppErr -> "app" | REof -> "eof" | RCtx -> "ctx" | RTooBig -> "toobig" | RWriteErr -> "werr" | ROther -> "other" in
+        let bad = List.filter (fun e ->
+          match String.split_on_char ':' e with
+          | [ c; want ] -> (match List.assoc_opt c rets with Some r -> not (List.mem (cls r) (String.split_on_char '+' want)) | None -> true)
+          | _ -> false) exp in
+        match bad with
+        | b :: _ -> Printf.sprintf "PROPFAIL %s sig=wrong-error-after-stop%s an operation did not end with an allowed result (%s; got %s)" id fam b
+                      (match String.split_on_char ':' b with c :: _ -> (match List.assoc_opt c rets with Some r -> cls r | None -> "no return") | _ -> "?")
+        | [] -> Printf.sprintf "AGREE %s %s" id (nt k))
